@@ -238,6 +238,7 @@ struct Norm<'a> {
     subst: Option<(String, String)>,
     strviews: bool,
     forlist: bool,
+    forslice: bool,
     nexton: Option<String>,
     before: Vec<String>,
     pub before_hits: Vec<usize>,
@@ -498,6 +499,21 @@ impl<'a> Norm<'a> {
                         let y = &uo.args[0];
                         *e = parse_quote!(v_strip_prefix_or_view(#x, #lit, #y));
                         self.stats.bump("N9.strip_prefix_or_view");
+                    }
+                }
+            }
+        }
+    }
+
+    /// N10: `Err(X.into())` ==> `Err((X).into_verr())` (conversion into the unit's one error type)
+    fn n10_err_into(&mut self, e: &mut Expr) {
+        if let Expr::Call(c) = e {
+            if c.func.to_token_stream().to_string() == "Err" && c.args.len() == 1 {
+                if let Expr::MethodCall(mc) = &c.args[0] {
+                    if mc.method == "into" && mc.args.is_empty() && mc.turbofish.is_none() {
+                        let inner = &mc.receiver;
+                        *e = parse_quote!(Err((#inner).into_verr()));
+                        self.stats.bump("N10.err_into");
                     }
                 }
             }
@@ -826,6 +842,32 @@ impl<'a> VisitMut for Norm<'a> {
                 }
             }
         }
+        // N18b (directive option `forslice`): `for P in E.iter() B`  ==>  `{ let __it = &E; let mut __i: usize = 0; while __i < __it.len() { let P = &__it[__i]; __i += 1; B } }`
+        // (definition of iterating a slice/array by reference)
+        if self.forslice {
+            if let Expr::ForLoop(f) = e {
+                if f.label.is_none() {
+                    if let Expr::MethodCall(mc) = &*f.expr {
+                        if mc.method == "iter" && mc.args.is_empty() {
+                            let pat = &f.pat;
+                            let recv = &mc.receiver;
+                            let stmts = &f.body.stmts;
+                            let new: Expr = parse_quote!({
+                                let __it = &#recv;
+                                let mut __i: usize = 0;
+                                while __i < __it.len() {
+                                    let #pat = &__it[__i];
+                                    __i += 1;
+                                    #(#stmts)*
+                                }
+                            });
+                            *e = new;
+                            self.stats.bump("N18.for_over_slice_as_while");
+                        }
+                    }
+                }
+            }
+        }
         // loops are numbered in pre-order
         match e {
             Expr::While(w) => self.mark_loop(&mut w.body),
@@ -891,6 +933,7 @@ impl<'a> VisitMut for Norm<'a> {
         self.n9(e);
         self.n9_strviews(e);
         self.n17_nexton(e);
+        self.n10_err_into(e);
     }
 
     fn visit_path_mut(&mut self, p: &mut syn::Path) {
@@ -967,7 +1010,7 @@ impl<'a> VisitMut for Norm<'a> {
 /// Returns the number of loops found (pre-order numbering).
 pub fn normalise(block: &mut syn::Block, opts: &BTreeMap<String, String>, stats: &mut Stats, desc: &str, before: &[String]) -> (usize, Vec<usize>, usize) {
     let deref_idents = opts.get("n3").map(|s| s.split(',').map(|x| x.to_string()).collect()).unwrap_or_default();
-    let mut n = Norm { stats, desc, loops: 0, tmp: 0, closure_args: 0, deref_idents, keep_async: false, yieldctx: opts.get("yieldctx").cloned(), opt_map: opts.contains_key("optmap"), dropnote: opts.get("dropnote").cloned(), selfty: opts.get("selfty").cloned(), skip_sort: false, strviews: opts.contains_key("strviews"), forlist: opts.contains_key("forlist"), nexton: opts.get("nexton").cloned(), before: before.to_vec(), before_hits: vec![0; before.len()], subst: opts.get("subst").and_then(|v| v.split_once(':').map(|(a, b)| (a.to_string(), b.replace('~', "::")))) };
+    let mut n = Norm { stats, desc, loops: 0, tmp: 0, closure_args: 0, deref_idents, keep_async: false, yieldctx: opts.get("yieldctx").cloned(), opt_map: opts.contains_key("optmap"), dropnote: opts.get("dropnote").cloned(), selfty: opts.get("selfty").cloned(), skip_sort: false, strviews: opts.contains_key("strviews"), forlist: opts.contains_key("forlist"), forslice: opts.contains_key("forslice"), nexton: opts.get("nexton").cloned(), before: before.to_vec(), before_hits: vec![0; before.len()], subst: opts.get("subst").and_then(|v| v.split_once(':').map(|(a, b)| (a.to_string(), b.replace('~', "::")))) };
     n.visit_block_mut(block);
     let (l, b) = (n.loops, n.before_hits.clone());
     // closures that are still there after normalisation carry no contract: Verus knows nothing about their results
